@@ -49,7 +49,7 @@ FAMILIES = {
     "teamlimits": dict(team=0.55, nest=0.85, depth=2, tdaily=0.55, tweekly=0.2, rdaily=0.15, gdaily=0.2, group=0.4, nres=(2, 3),
                        ntasks=(3, 7), efforts=[60, 120, 180, 300, 360, 420], dur=[("w", 3), ("w", 4)], prio=0.7, dep=0.2),
     # blocking bookings in every duration unit, also months
-    "bookings": dict(rbook=0.95, book_units=[(30.4167 * 1440, "1m"), (2 * 30.4167 * 1440, "2m"), (10080, "1w"), (1440, "1d"), (360, "6h")],
+    "bookings": dict(rleave=0.5, monthleave=0.7, rbook=0.95, book_units=[(30.4167 * 1440, "1m"), (2 * 30.4167 * 1440, "2m"), (10080, "1w"), (1440, "1d"), (360, "6h")],
                      efforts=[480, 960, 1920, 2400, 3000], dur=[("w", 4), ("w", 8)], ntasks=(1, 4), nres=(1, 2), dep=0.4, vac=0.1),
     # leaves, vacations and blocking bookings that end inside a slot, in the hours where the work is
     "midslot": dict(midslot=0.8, rbook=0.5, book_units=[(90, "90min"), (30, "30min"), (150, "150min"), (45, "45min"), (210, "210min")],
@@ -89,6 +89,12 @@ FAMILIES = {
     # bounds of C04 hold whatever it does
     "maxgapdeps": dict(maxgap=0.5, dep=0.85, nest=0.4, contdep=0.3, nres=(2, 3), ntasks=(3, 7), gap=[0, 0, 60, 120], onstart=0.1, rbook=0.4, rleave=0.2,
                        efforts=[120, 240, 480, 960], prio=0.5),
+    # backward projects with more than ten tasks: full ids that are string prefixes of one another (t1 / t10 ... t13)
+    "alapmany": dict(alap=1.0, nest=0.15, ntasks=(11, 14), dep=0.6, gap=[0, 0, 60, 480], onstart=0.0, precedes=0.2, pin=0.0, milestone=0.05,
+                     efforts=[60, 120, 240, 480], nres=(1, 3), rleave=0.0, vac=0.0, gleave=0.0),
+    # gaps in days, some as calendar time (gapduration 1d = 24 h) and some as working time (gaplength 1d = 8 h)
+    "gaplenmix": dict(gaplenmix=0.4, dep=0.9, gap=[1440, 1440, 2880, 0], ntasks=(4, 8), nres=(1, 3), nest=0.3, contdep=0.2, onstart=0.05,
+                      efforts=[120, 240, 480], prio=0.5, rleave=0.0, vac=0.0, gleave=0.0),
     "taskalap": dict(taskalap=0.5, dep=0.4, onstart=0.0, pin=0.0, efforts=[60, 120, 240, 90], ntasks=(1, 5), milestone=0.0),
     "trees": dict(group=0.5, galloc=0.2, dupid=0.3, contstart=0.3, nest=0.8, depth=4, ntasks=(3, 10), dep=0.3, milestone=0.15, pin=0.15, contdep=0.3, unsched=0.3),
     # nested containers with windows of their own and leaves that cannot be scheduled
@@ -239,7 +245,19 @@ def gen(rng, cfg):
         if rng.random() < cfg["rleave"]:
             a = day0 + rng.randint(0, 8) * 86400
             kind = rng.choice(["annual", "sick", "vacation", "special"])
-            r["leaves"].append((a, None if rng.random() < 0.5 else a + rng.randint(1, 2) * 86400, kind))
+            if rng.random() < cfg.get("monthleave", 0.0):
+                # a leave of one or two calendar months: it ends on the same day of the month on which it begins
+                import datetime as _dt
+                d0 = _dt.datetime(1970, 1, 1) + _dt.timedelta(seconds=a)
+                k = rng.choice([1, 1, 2])
+                y, m = d0.year + (d0.month - 1 + k) // 12, (d0.month - 1 + k) % 12 + 1
+                try:
+                    d1 = d0.replace(year=y, month=m)
+                    r["leaves"].append((a, int((d1 - _dt.datetime(1970, 1, 1)).total_seconds()), kind))
+                except ValueError:
+                    r["leaves"].append((a, a + 30 * 86400, kind))
+            else:
+                r["leaves"].append((a, None if rng.random() < 0.5 else a + rng.randint(1, 2) * 86400, kind))
         if rng.random() < cfg.get("midslot", 0.0):
             # a leave that ends (and may begin) inside a slot, early in the project where the work is
             a = day0 + rng.randint(0, 2) * 86400 + rng.choice([9, 9, 10, 13]) * 3600 + rng.choice([0, 0, 900, 1800])
@@ -360,6 +378,10 @@ def gen(rng, cfg):
             d["onstart"] = True
         elif rng.random() < 0.1:
             d["onend"] = True            # the default kind, written out
+        if cfg.get("gaplenmix") and rng.random() < cfg["gaplenmix"]:
+            d.pop("gap", None)
+            d["gaplen"] = 480 * rng.choice([1, 1, 2])          # working time, written "1d" / "2d"
+            d["gaplen_days"] = True
         if cfg.get("maxgap") and rng.random() < cfg["maxgap"]:
             d["maxgap"] = rng.choice([60, 120, 480, 1440])     # a maximum gap to the predecessor as well
         return d
